@@ -1144,6 +1144,8 @@ class LibMixin:
                 return [(st, z3.Or(*[kb == box(const(ck)) for ck in h.items]) if h.items else z3.BoolVal(False))]
             kb = box(item)
             return [(st, z3.Or(z3.Select(h.present, kb), *[kb == box(const(ck)) for ck in h.items]))]
+        if isinstance(h, HSet):
+            return self.py_in(st, item, VTuple(tuple(h.items)))
         if isinstance(h, HList):
             if h.items is not None:
                 return self.py_in(st, item, VTuple(tuple(h.items)))
